@@ -111,6 +111,8 @@ Inductive cop :=
 | CScanCount (rev : N)                   (* scanner.Count at an explicit revision *)
 | CStream (rev : N)                      (* Backend.ListByStream over the whole range *)
 | CStreamPart (rev : N)                  (* Backend.ListByStream once per advertised partition *)
+| CFaultRead (rev : N)                   (* a range read during which the engine fails the point read of the compaction
+                                            record: checkCompactRace returns the error, the read is not served *)
 (* overlapping compactions: each Compact call runs on its own thread and is advanced one engine call at a time *)
 | CSpawn (i : N) (r : N) (nranges : nat) (* thread i enters Backend.Compact(r): clamp, then parks before its first engine call *)
 | CThread (i : N) (ph : cphase)          (* thread i performs the engine call it is parked at (observed: which one) *)
@@ -140,6 +142,7 @@ Definition cstep (s : cstate) (op : cop) : cstate * cobs :=
   | CScanCount rev => (s, ORead (race_read (c_rec s) rev))
   | CStream rev => (s, ORead (race_read (c_rec s) (eff_rev (c_cur s) rev)))
   | CStreamPart rev => (s, ORead (race_read (c_rec s) (eff_rev (c_cur s) rev)))
+  | CFaultRead _ => (s, ORead RErr)      (* an unreadable record is never taken for "no compaction yet" *)
   | CSpawn _ _ _ | CThread _ _ | CRSpawn _ _ | CReadCheck _ _ | CReadScan _ _ => (s, OWrite)      (* thread labels: see xstep below *)
   end.
 
